@@ -361,12 +361,12 @@ pub(crate) trait CKKSSubDefault<BE: Backend> {
         )?;
         let n = dst.n().as_usize();
         if let Some(coeff) = cst_znx.re() {
-            for (limb, digit) in coeff.iter().enumerate() {
+            for (limb, digit) in coeff.iter().enumerate().take(dst.size()) {
                 dst.data_mut().at_mut(0, limb)[0] -= *digit;
             }
         }
         if let Some(coeff) = cst_znx.im() {
-            for (limb, digit) in coeff.iter().enumerate() {
+            for (limb, digit) in coeff.iter().enumerate().take(dst.size()) {
                 dst.data_mut().at_mut(0, limb)[n / 2] -= *digit;
             }
         }
